@@ -81,9 +81,21 @@ CLAIMS = {
          "by exploring every random choice in the model (n<=3/4), with the model tied to the code by scripted-randint correspondence; closure equality with the INPUT "
          "(through the canonical vertices) and distinctness per input with the Lean-verified closure.",
          "Lean invariant proof over all random streams + exhaustive exploration of random choices per input + scripted-randint correspondence"),
+ "C11": ("other", "6.C11", "C11 is FALSE on this tree (the recording builder is a drifted copy of the plain one) and is recorded as known findings made SPECIFIC by an exact "
+         "Lean model of the drifted builder (Model/MorphRec.lean, frames as a log), tied to the code by exact comparison of legs/dependents/algebra/last frames: a C11 "
+         "failure is known iff the recorded output equals the drift model's output, the plain output the plain model's, and the failure kind (wrong closure / overcount / "
+         "other dependents / non-termination) is the one the model pair exhibits; anything else is a VIOLATION. Per input the property is evaluated independently "
+         "(invariants of the names, dependents sets, Lean-verified closure of both vertex sets, last frame per reduction). Lean: refutation witnesses, step-wise "
+         "simulation theorems between the two builders for the non-drifted steps.",
+         "exact Lean model of the drifted recorder + differential correspondence + Lean-verified closure per input; refutation and simulation theorems"),
+ "C19": ("other", "6.C19", "Translator tie: G_LIE and two_local_algebras(n) for 3<=n<=40 (28x38 rows, exact text and parsed) are regenerated from the live package on every run and "
+         "proved equal to the Lean closed forms (tl_table_tie, gLie_tie, iso_tie). Proved for ALL n>=3: name arithmetic and the low-rank coincidences; families a0, b0, b1 "
+         "(commuting: closure = generators, that many u(1)), a1 (closure = intervals, n(n-1)/2 = dim so(n)), b3 (all single-site strings, 3n). All other (family,n) decided "
+         "per input by the Lean-verified closure invariants for 3<=n<=6/7 (size at 8) and classifier-vs-table to n=16/40. Refuted (known findings): a11, a12, a17 at n=3.",
+         "generated-table tie theorems + all-n closure theorems for 5 families + Lean-verified closure per (family,n) + classifier correspondence"),
 }
 PENDING = {}
-ACTIVE = ["C04", "C18", "C17", "C14", "C01", "C02", "C08", "C09", "C10", "C15", "C12", "C13", "C03", "C20"]
+ACTIVE = ["C04", "C18", "C17", "C14", "C01", "C02", "C08", "C09", "C10", "C15", "C12", "C13", "C03", "C20", "C11", "C19"]
 def main():
     props = [json.loads(l) for l in open(os.path.join(V, "properties.jsonl"))]
     checks, na = [], []
